@@ -89,6 +89,18 @@ CHECKS = {
         "assumptions": ["oracle in c15snap", "rapid v1.3.0; go1.26.8"],
         "jobs": [{"pkg": "c15snap", "kinds": ["deque-iter", "heap-iter", "queue-iter"], "scale_thorough": 10, "shards_thorough": 16}],
     },
+    "C07": {
+        "level": "exploration",
+        "level_text": ("Generated inputs (empty, singleton, all-equal, alternating, singleton runs at either edge, long runs), generated predicate/equivalence outcome tables and boundary parameters for every "
+                       "iterator/stream combinator and reducer; each case is run through the iterator version, the stream version and (where it exists) the xslices version and compared with an independent slice "
+                       "interpreter; recording sources bound how many items were pulled after every response (laziness) and every end is pulled again 1-3 times (sticky end); random pipelines compose them"),
+        "level_note": "Trusts the slice interpreter and need(j) model in c07comb; chunk sizes < 1, negative n for First/Last and non-equivalence eq/same relations are outside the documented domain and not generated.",
+        "technique": "property-based differential testing (rapid): iterator vs stream vs xslices vs reference interpreter, with pull-count instrumentation",
+        "rule": ("kinds: 'single' (one combinator/reducer, one consumer behaviour), 'pipeline' (chain of 1-4 stages + reducer), 'ctor' (constructors). non-trivial = input length >= 2 and a boundary is exercised "
+                 "(parameter in {0,len-1,len,len+1}, singleton run at an edge, source ends on a chunk boundary, a pull after the end, or pipeline depth >= 2); distinct = distinct case JSON"),
+        "assumptions": ["reference interpreter in c07comb", "rapid v1.3.0; go1.26.8"],
+        "jobs": [{"pkg": "c07comb", "kinds": ["single", "pipeline", "ctor"], "scale_thorough": 10, "shards_thorough": 16}],
+    },
     "C04": {
         "level": "exploration",
         "level_text": ("Model-based property testing: thousands of generated operation histories (macro-ops reach wrapped, full, "
